@@ -210,8 +210,12 @@ BUILTINS1 = ["<builtin>norm_1", "<builtin>norm_2", "<builtin>norm_inf", "<builti
              "<builtin>elementwise_abs", "<builtin>array"]
 
 
-def sample_value(rt):
+def sample_value(rt, n=3):
     import numpy as np
+    if n == 4:
+        return np.array([2.0, 1.0, 1.0, 3.0]) * (1j if rt[1] else 1.0) + (1.0 if rt[1] else 0.0)
+    if n == 2:
+        return np.array([1.0, -2.0]) * (1j if rt[1] else 1.0)
     if rt == "bool":
         return True
     if rt == "int":
@@ -259,6 +263,14 @@ def cases(rng, tier):
             for o in ("/", "**"):
                 yield {"op": "C09.rt", "tag": "arith", "inputs": [["in0", r1], ["in1", r2]], "order": [0],
                        "src": [["out", None, [o, ["v", "in0"], ["v", "in1"]], []]]}
+    for f in ("<builtin>matmul", "<builtin>linear_solve"):
+        for ca in (False, True):
+            for cb in (False, True):
+                yield {"op": "C09.rt", "tag": "impl4", "inputs": [["in0", ["arr", ca], 4], ["in1", ["arr", cb], 2]], "order": [0],
+                       "src": [["out", None, ["call", f, [["v", "in0"], ["v", "in1"], ["c", 2], ["c", 1]], []], []]]}
+    for ca in (False, True):
+        yield {"op": "C09.rt", "tag": "impl4", "inputs": [["in0", ["arr", ca], 4]], "order": [0],
+               "src": [["out", None, ["call", "<builtin>transpose", [["v", "in0"], ["c", 2]], []], []]]}
     for _ in range(700 if tier == "quick" else 12000):
         prog = gen_program(rng)
         order = list(range(len(prog)))
@@ -278,7 +290,7 @@ def model_input(case):
         return {"op": "C09.infer", "prog": kc.model_prog(to_specs(case["src"]), case["order"]), "funcs": KIND_FUNCS}
     stmts = [kc.build_stmt(spec, i) for i, (ph, spec) in enumerate(to_specs(case["src"]))]
     prog = [[st.assignee, bool(st.assignee_subscript), ser.to_js(st.expression), [l[0] for l in st.loops]] for st in stmts]
-    return {"op": "C09.rt", "prog": prog, "rtfuncs": RT_FUNCS, "init": INIT + case.get("inputs", [])}
+    return {"op": "C09.rt", "prog": prog, "rtfuncs": RT_FUNCS, "init": INIT + [i[:2] for i in case.get("inputs", [])]}
 
 
 def real_run(case):
@@ -299,8 +311,8 @@ def real_run(case):
     dict.__setitem__(ctx, "<t>", 0.5)
     dict.__setitem__(ctx, "<dt>", 0.25)
     dict.__setitem__(ctx, "<state>y", uv([1.0, -2.0, 0.5]))
-    for name, rt in case.get("inputs", []):
-        dict.__setitem__(ctx, name, sample_value(rt))
+    for inp in case.get("inputs", []):
+        dict.__setitem__(ctx, inp[0], sample_value(inp[1], *inp[2:]))
     interp.context = ctx
     interp.eval_mapper.context = ctx
     inner = interp.eval_mapper
@@ -361,7 +373,7 @@ def impl(case):
 def normalise_pair(case, impl_out, model_out):
     """single-operation cases: where the model says `err` (= not modelled / Python raises) nothing is compared;
     the theorems exclude exactly these evaluations"""
-    if case["tag"] in ("impl1", "impl2", "arith") and model_out.get("rt") == [["out", "err"]]:
+    if case["tag"] in ("impl1", "impl2", "impl4", "arith") and model_out.get("rt") == [["out", "err"]]:
         return model_out, model_out
     if case["op"] == "C09.results" and "err" in impl_out and "err" in model_out:
         # which exception class a rejected argument list raises is not part of the property
@@ -388,7 +400,35 @@ def compat(rt, kind):
     return False
 
 
+RT_KIND = {"bool": "B", "int": ["S", True], "real": ["S", True], "cplx": ["S", False]}
+
+
+def kind_of_rt(rt):
+    if isinstance(rt, list):
+        return ["A", not rt[1]] if rt[0] == "arr" else ["U", rt[1]]
+    return RT_KIND[rt]
+
+
+def builtin_oracle(case, out):
+    """declared result kind (check mode, argument kinds = the kinds of the actual values) vs. the value returned"""
+    e = case["src"][0][2]
+    if e[0] != "call" or out["rt"][0][1] == "err":
+        return None
+    rts = dict((i[0], i[1]) for i in case["inputs"])
+    kinds = [kind_of_rt(rts[a[1]]) if a[0] == "v" else ["S", True] for a in e[2]]
+    d = declared({"f": e[1], "pos": kinds, "kw": [], "check": True})
+    if "ok" not in d or len(d["ok"]) != 1:
+        return None
+    ctx.count("oracle:builtin-declared-vs-returned")
+    if not compat(out["rt"][0][1], d["ok"][0]):
+        return {"what": f"{e[1]} on arguments of kinds {kinds} is declared to return {d['ok'][0]} but its implementation "
+                        f"returned a value of run-time kind {out['rt'][0][1]}", "sig": "builtin-declared"}
+    return None
+
+
 def oracle(case, out):
+    if "rt" in out and case["tag"] in ("impl1", "impl2", "impl4"):
+        return builtin_oracle(case, out)
     if "rt" not in out or case["tag"] != "typed":
         return None
     specs = to_specs(case["src"])
